@@ -102,6 +102,14 @@ class BlockDecode:
     def raises(data):
         return {ValueError: not (0 <= data[9] <= 7 or data[9] == 9)}
 
+    def samples(rnd):
+        import struct
+        for _ in range(40):
+            body = bytes(rnd.getrandbits(8) for _ in range(rnd.choice((0, 0, 1, 5, 40))))
+            hdr = bytearray(rnd.getrandbits(8) for _ in range(10))
+            hdr[5] = rnd.choice((0, 1, 2, 3, 4, 5, 6, 7, 9, 9, 8, 10, 255, 0, 0))
+            yield {"data": struct.pack(">L", 10 + len(body)) + bytes(hdr) + body}
+
     def ensures(data, result):
         h = result._header
         n = len(data) - 14
@@ -165,13 +173,39 @@ class BQPop:
                 and len(self._buffer) == n0 - k and forall(0, n0 - k, lambda t: self._buffer[t] == old.self._buffer[k + t]))
 
 
-@contract("secsgem.common.byte_queue:ByteQueue.wait_for", "C04")
+@contract("secsgem.common.byte_queue:ByteQueue.wait_for", "C04", name="BQWaitForBuffered")
+class BQWaitForBuffered:
+    """With the bytes already buffered (the only way the HSMS framing loop calls it, see ProcessReceived): returns exactly
+    the first `size` bytes and removes them unless peek."""
+
+    cases = [("peek", {"peek": True}), ("pop", {"peek": False})]
+
+    def inputs(peek):
+        return {"self": bq_obj(), "size": Int(0, None), "peek": Const(peek)}
+
+    def requires(self, size):
+        return len(self._buffer) >= size
+
+    def raises():
+        return {}
+
+    def ensures(self, size, peek, old, result):
+        n0 = len(old.self._buffer)
+        keep = 0 if peek else size
+        return (len(result) == size and len(self._buffer) == n0 - keep
+                and forall(0, size, lambda t: result[t] == old.self._buffer[t])
+                and forall(0, n0 - keep, lambda t: self._buffer[t] == old.self._buffer[keep + t]))
+
+
+@contract("secsgem.common.byte_queue:ByteQueue.wait_for", "C17")
 class BQWaitFor:
     """Under the rely 'other threads only append': returns exactly `size` bytes = the first `size` bytes of
-    (buffer ++ arrivals); removes them unless peek; nothing else is lost or reordered."""
+    (buffer ++ arrivals); removes them unless peek; nothing else is lost or reordered.  (Registered for C17: the SECS-I
+    loops are the callers that really wait; the HSMS framing loop only calls wait_for with its bytes buffered.)"""
 
     cases = [("peek", {"peek": True}), ("pop", {"peek": False})]
     rely = [("self._buffer", "append")]
+    returns = ByteArray()
 
     def inputs(peek):
         return {"self": bq_obj(), "size": Int(0, None), "peek": Const(peek)}
@@ -239,6 +273,18 @@ class BQLenAbs:
         return result == len(self._buffer) and result >= len(old.self._buffer) and abs_inv(self)
 
 
+@contract("secsgem.common.byte_queue:ByteQueue.wait_for", "C04", name="BQWaitForBufferedAbs")
+class BQWaitForBufferedAbs(BQWaitForAbs):
+    """Call-site contract used by the HSMS framing loop: wait_for(n) is only called with at least n bytes buffered (an
+    obligation at every call), and then returns the next n bytes of the stream.  Justified by BQWaitForBuffered /
+    BQAppend / BQPop verified on the real methods."""
+
+    abstract = True
+
+    def requires(self, size):
+        return size >= 0 and abs_inv(self) and len(self._buffer) >= size
+
+
 def frame_matches(block, stream, a, b):
     """block is the decode of the frame stream[a:b]."""
     h = block._header
@@ -295,7 +341,7 @@ class ProcessReceived:
     4 bytes buffered - whatever the segmentation, which does not occur in the ghost-stream view."""
 
     cases = None
-    uses = [BQWaitForAbs, BQLenAbs, QueueBlockAbs, BlockDecode]
+    uses = [BQWaitForBufferedAbs, BQLenAbs, QueueBlockAbs, BlockDecode]
 
     def inputs():
         q = Obj(ByteQueue, _buffer=ByteArray(), g_stream=Bytes(), g_cursor=Int(0, None), g_starts=ListOf(Int, min_len=1))
